@@ -2,6 +2,8 @@ package buildsim
 
 import (
 	"fmt"
+
+	"github.com/RoaringBitmap/roaring/v2"
 	"os"
 	"path/filepath"
 	"sort"
@@ -43,6 +45,9 @@ func c10Queries() []query.Q {
 		&query.Substring{Pattern: "αβγδ", CaseSensitive: true},
 		&query.Substring{Pattern: "héllo wörld"},
 		&query.Substring{Pattern: "🙂x"},
+		// repository filters by id pre-select shards; a repository may span several
+		&query.And{Children: []query.Q{&query.RepoIDs{Repos: roaring.BitmapOf(1)}, &query.Substring{Pattern: "needle"}}},
+		&query.And{Children: []query.Q{&query.BranchesRepos{List: []query.BranchRepos{{Branch: "HEAD", Repos: roaring.BitmapOf(2)}}}, &query.Const{Value: true}}},
 	}
 }
 
